@@ -603,6 +603,15 @@ ParseTruncClause(ev) ==
   ELSE IF Len(gt.ds) <= 6 /\ ev.dumped # TruncText(gd) THEN "dump-as-parsed-does-not-reproduce-input"
   ELSE "ok"
 
+\* one comparison performed by the repository's own tests: rel in {"eq","lt","le","gt","ge"}
+Cmp1Clause(m, ev) ==
+  LET c == Cmp3(Inst(m, ev.a), Inst(m, ev.b))
+      e == CASE ev.rel = "eq" -> c = 0 [] ev.rel = "lt" -> c < 0 [] ev.rel = "le" -> c <= 0 [] ev.rel = "gt" -> c > 0 [] OTHER -> c >= 0
+  IN IF ~(ValidTP(m, ev.a) /\ ValidTP(m, ev.b)) THEN "operand-invalid"
+     ELSE IF ev.a.frac \/ ev.b.frac THEN "ok"
+     ELSE IF ev.res # e THEN "comparison-" \o ev.rel
+     ELSE "ok"
+
 \* ---------------------------------------------------------------------- the step relation
 Clause(ev) ==
   CASE ev.op = "Begin"    -> "ok"
@@ -649,6 +658,8 @@ Clause(ev) ==
     [] ev.op = "CliBad"   -> CliBadClause(ev)
     [] ev.op = "CliRec"   -> CliRecClause(ev)
     [] ev.op = "ParseTrunc" -> ParseTruncClause(ev)
+    [] ev.op = "Cmp1"     -> Cmp1Clause(mode, ev)
+    [] ev.op = "SuiteEnd" -> "ok"
     [] ev.op = "Raised"   -> "raised-" \o ev.cls
     [] OTHER -> "unknown-event-kind"
 
